@@ -100,6 +100,10 @@ type Sim struct {
 
 	// TaskWeight is the weight given to each runnable task (default 10).
 	TaskWeight int
+	// WeightFn, when set, overrides TaskWeight per runnable task (by task name
+	// and the site it is parked at); a result <= 0 means "use TaskWeight".
+	// Worlds use it to bias a run towards starving one class of task.
+	WeightFn func(task, site string) int
 }
 
 var current atomic.Pointer[Sim]
@@ -524,7 +528,13 @@ func (s *Sim) Run(o RunOpts) (StopReason, error) {
 		var acts []Action
 		for _, r := range rdy {
 			r := r
-			acts = append(acts, Action{Name: "run " + r.t.Name + " @" + shortSite(r.site), Weight: s.TaskWeight, Do: func() { s.release(r.t) }})
+			wt := s.TaskWeight
+			if s.WeightFn != nil {
+				if x := s.WeightFn(r.t.Name, r.site); x > 0 {
+					wt = x
+				}
+			}
+			acts = append(acts, Action{Name: "run " + r.t.Name + " @" + shortSite(r.site), Weight: wt, Do: func() { s.release(r.t) }})
 		}
 		if len(rdy) > 1 {
 			s.Interleavings++
